@@ -107,6 +107,16 @@ Theorem paramslen_counts_wildcards :
 Proof. exact paramslen_counts_wildcards_l. Qed.
 Print Assumptions paramslen_counts_wildcards.
 
+(* the wildcard limit (WithMaxRouteParams, 65535 by default): more wildcards are refused, whatever their number, and
+   ParamsLen of an accepted route never exceeds it *)
+Theorem too_many_params_rejected :
+  forall (chk : bool) (r : router) (p : bytes) (h : bool) (opts : list ropt),
+    (forall n e, parse_lite p = Some (n, e) -> N.lt (g_maxParams r) (N.of_nat (count_open p)) ->
+                 new_route chk r p h opts = Err ErrInvalidRoute) /\
+    (forall rt, new_route chk r p h opts = Ok rt -> N.le (N.of_nat (rt_psLen rt)) (g_maxParams r)).
+Proof. exact too_many_params_rejected_l. Qed.
+Print Assumptions too_many_params_rejected.
+
 (* the matched route's resolver inside route handlers, the router-wide one in every other handler *)
 Theorem clientip_selection :
   forall (chk : bool) (r : router) (pats : list bytes) (tab : table) (key : nat) (rt : route) (p : probe),
@@ -148,10 +158,10 @@ Theorem invalid_options_rejected_never_panic_partial :
   (forall g, new g <> Panic /\ (forallb g_valid g = false -> new g = Err ErrInvalidConfig)) /\
   (forall chk r p h opts,
       new_route chk r p h opts <> Panic /\
-      (h = true -> parse_lite p <> None -> forallb r_valid opts = false -> new_route chk r p h opts = Err ErrInvalidConfig) /\
-      (h = true -> parse_lite p = None -> new_route chk r p h opts = Err ErrInvalidRoute)) /\
+      (h = true -> accepts r p <> None -> forallb r_valid opts = false -> new_route chk r p h opts = Err ErrInvalidConfig) /\
+      (h = true -> accepts r p = None -> new_route chk r p h opts = Err ErrInvalidRoute)) /\
   (forall chk r pats t v key opts,
-      v <> VNewRoute -> create chk r pats t v key false opts = (t, ObsErr (Some ErrInvalidRoute) None)) /\
+      v = VHandle \/ v = VUpdate -> create chk r pats t v key false opts = (t, ObsErr (Some ErrInvalidRoute) None)) /\
   (forall chk g pats ops,
       chk = true \/ existsb Proofs.nil_newroute ops = false ->
       run_model chk g pats ops <> RPanic /\
